@@ -77,3 +77,60 @@ Theorem treeshake_off_keeps_everything_refuted :
     p_force_ts p = false /\ ~ live g (IPart s i).
 Proof. exact ts_off_keeps_everything_refuted_witness. Qed.
 Print Assumptions treeshake_off_keeps_everything_refuted.
+
+(* ---- purity classifier (model of ExprCanBeRemovedIfUnused) ---- *)
+From V Require Import C04.Purity C04.PuritySem C04.PurityProofs C04.PurityMain.
+
+(* An expression WITHOUT purity annotations or parser-set purity flags that
+   the classifier calls removable evaluates, in the probe-trace semantics of
+   PuritySem.v, with an EMPTY trace and WITHOUT throwing - for every world
+   (arbitrary user code behind every oracle), assuming only esbuild's
+   documented concessions: declared identifiers are not read inside their
+   temporal dead zone and import bindings are initialised. Class expressions
+   are outside the fragment (they need statement semantics): partial. *)
+Theorem can_be_removed_pure_partial :
+  forall (is_unbound : nat -> bool) (env glob imp : nat -> option value) (this_val : value)
+         (o_toprim : nat -> outcome) (o_iter : value -> outcome) (o_get : value -> Z -> outcome)
+         (o_opaque : node -> outcome) (o_annotated : node -> list value -> outcome)
+         (rel_prim : binop -> value -> value -> bool) (loose_prim : value -> value -> bool),
+    (forall r, is_unbound r = false -> env r <> None) ->
+    (forall r, imp r <> None) ->
+    forall e, plain e = true -> can_remove is_unbound e = true ->
+    exists v, eval is_unbound env glob imp this_val o_toprim o_iter o_get o_opaque o_annotated rel_prim loose_prim e = ([], Ok v).
+Proof. exact removable_silent_plain. Qed.
+Print Assumptions can_be_removed_pure_partial.
+
+(* With annotations and flags: the same conclusion when every flagged node
+   keeps its promise ([flags_ok]: flagged global reads are silent, annotated
+   calls are free of side effects, no identifier sits inside `with`). *)
+Theorem can_be_removed_pure_annotated_partial :
+  forall (is_unbound : nat -> bool) (env glob imp : nat -> option value) (this_val : value)
+         (o_toprim : nat -> outcome) (o_iter : value -> outcome) (o_get : value -> Z -> outcome)
+         (o_opaque : node -> outcome) (o_annotated : node -> list value -> outcome)
+         (rel_prim : binop -> value -> value -> bool) (loose_prim : value -> value -> bool),
+    (forall r, is_unbound r = false -> env r <> None) ->
+    (forall r, imp r <> None) ->
+    forall e,
+      flags_ok is_unbound env glob imp this_val o_toprim o_iter o_get o_opaque o_annotated rel_prim loose_prim e ->
+      can_remove is_unbound e = true ->
+      exists v, eval is_unbound env glob imp this_val o_toprim o_iter o_get o_opaque o_annotated rel_prim loose_prim e = ([], Ok v).
+Proof. exact removable_silent. Qed.
+Print Assumptions can_be_removed_pure_annotated_partial.
+
+(* The typeof guards recognised by isSideEffectFreeUnboundIdentifierRef are
+   sound: if the guard evaluated to the truth value of the branch, reading the
+   guarded unbound identifier does not throw. *)
+Theorem typeof_guard_sound :
+  forall (is_unbound : nat -> bool) (env glob imp : nat -> option value) (this_val : value)
+         (o_toprim : nat -> outcome) (o_iter : value -> outcome) (o_get : value -> Z -> outcome)
+         (o_opaque : node -> outcome) (o_annotated : node -> list value -> outcome)
+         (rel_prim : binop -> value -> value -> bool) (loose_prim : value -> value -> bool)
+         value guard is_yes gv,
+    guard_ok is_unbound value guard is_yes = true ->
+    flags_ok is_unbound env glob imp this_val o_toprim o_iter o_get o_opaque o_annotated rel_prim loose_prim value ->
+    flags_ok is_unbound env glob imp this_val o_toprim o_iter o_get o_opaque o_annotated rel_prim loose_prim guard ->
+    eval is_unbound env glob imp this_val o_toprim o_iter o_get o_opaque o_annotated rel_prim loose_prim guard = ([], Ok gv) ->
+    truthy gv = is_yes ->
+    exists v, eval is_unbound env glob imp this_val o_toprim o_iter o_get o_opaque o_annotated rel_prim loose_prim value = ([], Ok v).
+Proof. exact guard_sound. Qed.
+Print Assumptions typeof_guard_sound.
